@@ -370,6 +370,9 @@ class Evaluator:
                   ast.Gt: ("gt", "lt"), ast.GtE: ("ge", "le")}
 
     def _dunder(self, obj, name):
+        if isinstance(obj, Obj) and name in obj.fields and isinstance(
+                obj.fields[name], tuple):
+            return obj.fields[name]   # a stub object's own hook
         if not isinstance(obj, Obj) or obj.ci is None:
             return None
         owner, node = self.repo.lookup(obj.ci, name)
@@ -568,7 +571,12 @@ class Evaluator:
             idx = slice(lo, hi, st)
         else:
             idx = self.eval(node.slice, env)
-        if isinstance(base, (Obj, Opaque, ClassRef, EnumVal, Flags)):
+        if isinstance(base, Obj):
+            m = self._dunder(base, "__getitem__")
+            if m is None:
+                raise Unknown("subscript of an object without __getitem__")
+            return self.call(m, [idx])
+        if isinstance(base, (Opaque, ClassRef, EnumVal, Flags)):
             raise Unknown("subscript of abstract value")
         try:
             return base[idx]
@@ -680,6 +688,9 @@ class Evaluator:
                                                       kwargs)
             return self.construct(f.ci, args, kwargs)
         if isinstance(f, tuple) and f:
+            if f[0] == "hook":
+                # a rule's recording stub: receives abstract values as is
+                return f[1](*args, **kwargs)
             if f[0] == "pyfunc":
                 if f[1] is abs and len(args) == 1 and isinstance(args[0],
                                                                  Obj):
@@ -870,6 +881,19 @@ class Evaluator:
                 base.fields[t.attr] = v
             else:
                 raise Unknown("attribute store on non-object")
+        elif isinstance(t, ast.Subscript):
+            base = self.eval(t.value, env)
+            idx = self.eval(t.slice, env)
+            if isinstance(base, Obj):
+                m = self._dunder(base, "__setitem__")
+                if m is None:
+                    raise Unknown("item store on an object without "
+                                  "__setitem__")
+                self.call(m, [idx, v])
+            elif isinstance(base, (list, dict, bytearray)):
+                base[idx] = v
+            else:
+                raise Unknown("item store")
         else:
             raise Unknown("assignment target")
 
